@@ -47,10 +47,34 @@ pub fn c23(args: Args) {
         None
     };
 
+    // bit i of `pattern` set = event i carries a foreign hash (h+1, or h-1 for the last event)
+    let check_multi = |h: u16, n: usize, pattern: u32| -> Option<(String, String)> {
+        let mut evs = smallvec::SmallVec::<[NewEvent; 4]>::new();
+        for i in 0..n {
+            let foreign = pattern & (1 << i) != 0;
+            let hh = if !foreign { h } else if i + 1 == n { h.wrapping_sub(1) } else { h.wrapping_add(1) };
+            let id = catch(|| uuid_v7_with_partition_hash(hh)).ok()?;
+            evs.push(new_event(id));
+        }
+        let ok = Transaction::new(key_with_hash(h, 1), h % 1024, evs).is_ok();
+        if ok != (pattern == 0) {
+            return Some((
+                format!("transaction-validation/multi-event/{}", if ok { "foreign-id-accepted" } else { "matching-ids-rejected" }),
+                format!("Transaction::new with a partition key of hash {h} and {n} events whose ids carry {} hashes (bit i of {pattern:#b} = event i foreign): accepted = {ok}", if pattern == 0 { "only matching" } else { "some foreign" }),
+            ));
+        }
+        None
+    };
+
     if let Some(rp) = &args.replay {
         ctx.replay_mode = true;
         let c = vcommon::load_replay(rp);
-        if let (Some(h), Some(id)) = (c["hash"].as_u64(), c["id"].as_str()) {
+        if let (Some(h), Some(n), Some(pt)) = (c["hash"].as_u64(), c["events"].as_u64(), c["foreign_pattern"].as_u64()) {
+            if let Some((k, d)) = check_multi(h as u16, n as usize, pt as u32) {
+                println!("replay: {d}");
+                ctx.violation(&format!("C23/{k}"), &d, c.clone());
+            }
+        } else if let (Some(h), Some(id)) = (c["hash"].as_u64(), c["id"].as_str()) {
             if let Some((k, d)) = check_id(h as u16, id.parse().unwrap()) {
                 println!("replay: {d}");
                 ctx.violation(&format!("C23/{k}"), &d, c.clone());
@@ -85,6 +109,23 @@ pub fn c23(args: Args) {
         }
         evals.fetch_add(per as u64 * 6, Ordering::Relaxed);
         nontrivial.fetch_add(per as u64, Ordering::Relaxed);
+    });
+
+    // 1b. multi-event transactions: for 256 spread hashes (thorough: all), every non-empty pattern of matching / foreign
+    // event ids over 2 and 3 events: accepted exactly when every id carries the key's hash
+    let step = if thorough { 1 } else { 256 };
+    let multi_hashes: Vec<u32> = (0..65536).step_by(step).collect();
+    par_for_each(&multi_hashes, |_, &h| {
+        let h = h as u16;
+        for n in [2usize, 3] {
+            for pattern in 0..(1u32 << n) {
+                evals.fetch_add(1, Ordering::Relaxed);
+                if let Some((k, d)) = check_multi(h, n, pattern) {
+                    ctx.violation(&format!("C23/{k}"), &d, json!({"hash": h, "events": n, "foreign_pattern": pattern}));
+                }
+            }
+        }
+        nontrivial.fetch_add(12, Ordering::Relaxed);
     });
 
     // 2. flag functions: every value of every byte on three fills, walking one / walking zero
